@@ -1,8 +1,9 @@
 """Build and talk to qverif-driver (the Rust binary linked against /repo's current working tree)."""
 import json, os, subprocess, sys, time, select, signal
 
-VERIF = os.path.dirname(os.path.dirname(os.path.abspath(__file__)))
-TARGET = os.path.join(VERIF, ".target", "driver")
+import paths
+VERIF = paths.VERIF
+TARGET = paths.target("driver")
 BIN = os.path.join(TARGET, "debug", "qverif-driver")
 CFG = "--cfg qrlew_verif"
 
@@ -17,13 +18,14 @@ def cargo_env():
 def build(quiet=True):
     """(Re)build the driver against /repo's current sources. cargo's fingerprinting makes this a no-op when nothing changed."""
     t0 = time.time()
-    lock_src = "/repo/Cargo.lock"
-    lock_dst = os.path.join(VERIF, "driver", "Cargo.lock")
+    ddir = paths.crate_dir("driver")
+    lock_src = paths.REPO + "/Cargo.lock"
+    lock_dst = os.path.join(ddir, "Cargo.lock")
     if not os.path.exists(lock_dst):
         import shutil
         shutil.copy(lock_src, lock_dst)
     p = subprocess.run(["cargo", "build", "--offline", "--target-dir", TARGET],
-                       cwd=os.path.join(VERIF, "driver"), env=cargo_env(),
+                       cwd=ddir, env=cargo_env(),
                        stdout=subprocess.PIPE, stderr=subprocess.STDOUT, text=True)
     if p.returncode != 0:
         sys.stderr.write(p.stdout[-6000:])
